@@ -198,6 +198,34 @@ def r2_answers(ctx):
                     st.targets[0], ast.Name):
             answers.setdefault(st.targets[0].id, []).append(st)
     ctx.floor("input() answers in setup_profile", len(answers), 6)
+    # "nothing entered" is decided on the text typed: an answer that is
+    # converted (float/int/bool) before it is tested makes an accepted
+    # answer with a false value ('0') look like no answer
+    for c in calls_in(sp):
+        if call_name(c) != "input":
+            continue
+        par = getattr(c, "_parent", None)
+        while isinstance(par, (ast.Attribute, ast.Call)) and isinstance(
+                getattr(par, "func", par), ast.Attribute) and (
+                par.attr if isinstance(par, ast.Attribute)
+                else par.func.attr) in ("strip", "lower", "lstrip", "rstrip",
+                                        "casefold"):
+            par = getattr(par, "_parent", None)
+        conv = par
+        hops = 0
+        while conv is not None and not isinstance(conv, ast.stmt) and \
+                hops < 4:
+            if isinstance(conv, ast.Call) and call_name(conv) in (
+                    "float", "int", "bool", "complex"):
+                ctx.fail(c, "answer tested as typed",
+                         "setup_profile converts the answer with "
+                         f"{call_name(conv)}() before testing whether "
+                         "anything was entered: the accepted answer '0' is "
+                         "treated as no answer and the old value stays "
+                         "stored")
+                break
+            conv = getattr(conv, "_parent", None)
+            hops += 1
     CONV = {"float", "int"}
     for var, sts in answers.items():
         # conversions of the answer
@@ -724,6 +752,29 @@ def r5_statistics(ctx):
     fp_ = rm.func("fit_perform")
     loops = [n for n in walk_no_nested(fp_, False) if isinstance(n, ast.For)
              and norm(n.iter) == "grp"]
+    # fit_data is memoised on its arguments and reads the profile *file*:
+    # the batch fit must hand it the curve object of this run (a fresh
+    # object never hits the cache), not a (path, index) key that an earlier
+    # run with another profile content has already answered
+    fd_ = rm.funcs.get("fit_data")
+    memo_ = fd_ is not None and any(
+        "lru_cache" in norm(d) or norm(d).split("(")[0].endswith("cache")
+        for d in fd_.decorator_list)
+    if memo_:
+        fresh_ = {norm(lp.target) for lp in loops}
+        for c in calls_in(fp_):
+            if call_name(c) != "fit_data":
+                continue
+            a0 = c.args[0] if c.args else kwarg(c, "path")
+            ctx.check(a0 is not None and norm(a0) in fresh_, c,
+                      "the batch fit hands fit_data the curve object of "
+                      "this run",
+                      "fit_perform calls the memoised fit_data with "
+                      f"`{norm(a0) if a0 is not None else '?'}` instead of "
+                      "the curve object of this run: the cache is keyed by "
+                      "(path, index, profile path), so a second batch run "
+                      "after the profile was edited writes the moduli and "
+                      "ratings of the old profile")
     ctx.floor("per-curve loop in fit_perform", len(loops), 1)
     lp = loops[0]
     writes = [c for s in lp.body for c in ast.walk(s)
